@@ -2,7 +2,7 @@
    repetition count and an inversion flag; the statement is unrolled to that many copies of the gate or of its inverse
    (self-inverse gates stay, s <-> sdg, t <-> tdg, rotations negate their angle).  Added to the whole-program judgement. *)
 From Coq Require Import ZArith List Bool String Lia.
-From Verif Require Import Aexp BGate PyVal CastPrim Ast State GatesGen GateLib Unroll ResolveProofs Depth DepthModel ExprProofs FixProofs.
+From Verif Require Import Aexp BGate PyVal CastPrim Ast State GatesGen GateLib Unroll ResolveProofs Depth DepthModel ExprProofs FixProofs ParamProofs.
 Import ListNotations.
 Open Scope Z_scope.
 
@@ -98,11 +98,11 @@ Variable visit_rec : stmt -> M (list stmt).
 Variable call_rec : string -> list expr -> M (pyval * list stmt).
 
 (* one application of the inverse of a basis gate *)
-Lemma basic_inverse_fix env s name vs vs' bs np k name' neg :
+Lemma basic_inverse_fix env s name args vs vs' bs np k name' neg :
   Regs env s -> assoc name inv_basis = Some (np, k, name', neg) -> List.length vs = np -> List.length bs = k ->
-  forallb num_val vs = true -> (if neg then negate_all vs = Some vs' else vs' = vs) ->
+  cparams args = Some vs -> (if neg then negate_all vs = Some vs' else vs' = vs) ->
   forallb (in_reg (e_q env)) bs = true -> distinctb [] bs = true ->
-  exists s1, visit_basic_gate check_only call_rec name (map ELit vs) (map qarg_of bs) true s
+  exists s1, visit_basic_gate check_only call_rec name args (map qarg_of bs) true s
              = Ok ((if check_only then [] else [SGate [] name' (map ELit vs') (map qarg_of bs)]), s1) /\ DE s s1 /\
              Dstep s s1 [map Qr bs].
 Proof.
@@ -111,15 +111,14 @@ Proof.
   assert (Hlen : List.length vs' = List.length vs) by (destruct neg; [now apply negate_all_length|now subst]).
   unfold visit_basic_gate. cbn [negb]. rewrite Hl.
   rewrite (bind_eq _ _ s (Some (d, np', f), k, neg) s eq_refl).
-  assert (Hp : (match map ELit vs with
+  assert (Hp : (match args with
                 | [] => ret []
-                | _ :: _ => ps <- get_op_parameters call_rec (map ELit vs);;
+                | _ :: _ => ps <- get_op_parameters call_rec args;;
                             (if neg then mapMM (fun p => lift (py_binop OpMul (VInt (-1)) p)) ps else ret ps)
                 end) s = Ok (vs', s)).
-  { destruct vs as [|v0 vs0].
-    - destruct vs'; [|discriminate Hlen]. reflexivity.
-    - change (map ELit (v0 :: vs0)) with (ELit v0 :: map ELit vs0) at 1. cbv iota.
-      rewrite (bind_eq _ _ s (v0 :: vs0) s (op_parameters_literals call_rec (v0 :: vs0) s Hnum)).
+  { destruct args as [|a0 args0].
+    - apply cparams_nil in Hnum. subst vs. destruct vs'; [|discriminate Hlen]. reflexivity.
+    - rewrite (bind_eq _ _ s vs s (cparams_eval call_rec (a0 :: args0) vs s Hnum)).
       destruct neg; [now apply negate_all_mapMM|now subst]. }
   rewrite (bind_eq _ _ s vs' s Hp).
   assert (Ht : unroll_targets call_rec (map qarg_of bs) k s = Ok ([bs], s)).
@@ -145,10 +144,10 @@ Variable check_only : bool.
 Variable visit_rec : stmt -> M (list stmt).
 Variable call_rec : string -> list expr -> M (pyval * list stmt).
 
-Lemma basic_forward_fix env s name vs bs np k :
+Lemma basic_forward_fix env s name args vs bs np k :
   Regs env s -> assoc name self_basis = Some (np, k) -> List.length vs = np -> List.length bs = k ->
-  forallb num_val vs = true -> forallb (in_reg (e_q env)) bs = true -> distinctb [] bs = true ->
-  exists s1, visit_basic_gate check_only call_rec name (map ELit vs) (map qarg_of bs) false s
+  cparams args = Some vs -> forallb (in_reg (e_q env)) bs = true -> distinctb [] bs = true ->
+  exists s1, visit_basic_gate check_only call_rec name args (map qarg_of bs) false s
              = Ok ((if check_only then [] else [SGate [] name (map ELit vs) (map qarg_of bs)]), s1) /\ DE s s1 /\
              Dstep s s1 [map Qr bs].
 Proof.
@@ -156,13 +155,13 @@ Proof.
   destruct (self_basis_lowering name np k Hn) as (d & np' & f & Hl & Hk & Hf).
   unfold visit_basic_gate. cbn [negb]. rewrite Hl.
   rewrite (bind_eq _ _ s (Some (d, np', f), k, false) s eq_refl).
-  assert (Hp : (match map ELit vs with
+  assert (Hp : (match args with
                 | [] => ret []
-                | _ :: _ => ps <- get_op_parameters call_rec (map ELit vs);;
+                | _ :: _ => ps <- get_op_parameters call_rec args;;
                             (if false then mapMM (fun p => lift (py_binop OpMul (VInt (-1)) p)) ps else ret ps)
                 end) s = Ok (vs, s)).
-  { destruct vs as [|v0 vs0]; [reflexivity|]. change (map ELit (v0 :: vs0)) with (ELit v0 :: map ELit vs0) at 1.
-    cbv iota. rewrite (bind_eq _ _ s (v0 :: vs0) s (op_parameters_literals call_rec (v0 :: vs0) s Hnum)). reflexivity. }
+  { destruct args as [|a0 args0]; [apply cparams_nil in Hnum; subst vs; reflexivity|].
+    rewrite (bind_eq _ _ s vs s (cparams_eval call_rec (a0 :: args0) vs s Hnum)). reflexivity. }
   rewrite (bind_eq _ _ s vs s Hp).
   assert (Ht : unroll_targets call_rec (map qarg_of bs) k s = Ok ([bs], s)).
   { unfold unroll_targets. rewrite (bind_eq _ _ s s s eq_refl).
@@ -211,13 +210,13 @@ Proof.
   discriminate H.
 Qed.
 
-Lemma one_application env s name vs bs inv g :
-  Regs env s -> applied name vs bs inv = Some g -> forallb num_val vs = true ->
+Lemma one_application env s name args vs bs inv g :
+  Regs env s -> applied name vs bs inv = Some g -> cparams args = Some vs ->
   forallb (in_reg (e_q env)) bs = true -> distinctb [] bs = true ->
   exists s1, (s0 <- getst;;
-              if smem name [] then visit_external_gate check_only visit_rec call_rec name (map ELit vs) (map qarg_of bs) inv
-              else if smemk name (gates s0) then visit_custom_gate check_only visit_rec call_rec name (map ELit vs) (map qarg_of bs) inv
-              else visit_basic_gate check_only call_rec name (map ELit vs) (map qarg_of bs) inv) s
+              if smem name [] then visit_external_gate check_only visit_rec call_rec name args (map qarg_of bs) inv
+              else if smemk name (gates s0) then visit_custom_gate check_only visit_rec call_rec name args (map qarg_of bs) inv
+              else visit_basic_gate check_only call_rec name args (map qarg_of bs) inv) s
              = Ok ((if check_only then [] else [g]), s1) /\ DE s s1 /\ Dstep s s1 [map Qr bs].
 Proof.
   intros R Ha Hnum Hin Hd. rewrite (bind_eq _ _ s s s eq_refl). cbn [smem existsb].
@@ -236,18 +235,18 @@ Proof.
     rewrite (R_gates _ _ R name np k En). eapply basic_forward_fix; eauto.
 Qed.
 
-Lemma repeated_applications env name vs bs inv g n : forall s,
-  Regs env s -> applied name vs bs inv = Some g -> forallb num_val vs = true ->
+Lemma repeated_applications env name args vs bs inv g n : forall s,
+  Regs env s -> applied name vs bs inv = Some g -> cparams args = Some vs ->
   forallb (in_reg (e_q env)) bs = true -> distinctb [] bs = true ->
   exists s1, repeatM n (s0 <- getst;;
-              if smem name [] then visit_external_gate check_only visit_rec call_rec name (map ELit vs) (map qarg_of bs) inv
-              else if smemk name (gates s0) then visit_custom_gate check_only visit_rec call_rec name (map ELit vs) (map qarg_of bs) inv
-              else visit_basic_gate check_only call_rec name (map ELit vs) (map qarg_of bs) inv) s
+              if smem name [] then visit_external_gate check_only visit_rec call_rec name args (map qarg_of bs) inv
+              else if smemk name (gates s0) then visit_custom_gate check_only visit_rec call_rec name args (map qarg_of bs) inv
+              else visit_basic_gate check_only call_rec name args (map qarg_of bs) inv) s
              = Ok ((if check_only then [] else repeat g n), s1) /\ DE s s1 /\ Dstep s s1 (repeat (map Qr bs) n).
 Proof.
   induction n as [|n IH]; intros s R Ha Hnum Hin Hd; cbn [repeatM repeat].
   - exists s. split; [destruct check_only; reflexivity|]. split; [apply DE_refl|apply Dstep_same; reflexivity].
-  - destruct (one_application env s name vs bs inv g R Ha Hnum Hin Hd) as (s1 & E1 & D1 & S1).
+  - destruct (one_application env s name args vs bs inv g R Ha Hnum Hin Hd) as (s1 & E1 & D1 & S1).
     destruct (IH s1 (Regs_DE _ _ _ R D1) Ha Hnum Hin Hd) as (s2 & E2 & D2 & S2).
     rewrite (bind_eq _ _ s (if check_only then [] else [g]) s1 E1).
     rewrite (bind_eq _ _ s1 (if check_only then [] else repeat g n) s2 E2).
@@ -256,11 +255,11 @@ Proof.
 Qed.
 
 (* the modified gate statement *)
-Lemma modified_gate_fix env s mods name vs bs p inv g :
+Lemma modified_gate_fix env s mods name args vs bs p inv g :
   Regs env s -> cmods mods 1 false = Some (p, inv) -> p < 10000 ->
-  applied name vs bs inv = Some g -> forallb num_val vs = true ->
+  applied name vs bs inv = Some g -> cparams args = Some vs ->
   forallb (in_reg (e_q env)) bs = true -> distinctb [] bs = true ->
-  exists s1, visit_generic_gate check_only [] visit_rec call_rec mods name (map ELit vs) (map qarg_of bs) s
+  exists s1, visit_generic_gate check_only [] visit_rec call_rec mods name args (map qarg_of bs) s
              = Ok ((if check_only then [] else repeat g (Z.to_nat p)), s1) /\ DE s s1 /\ Dstep s s1 (repeat (map Qr bs) (Z.to_nat p)).
 Proof.
   intros R Hc Hp Ha Hnum Hin Hd. unfold visit_generic_gate.
@@ -268,7 +267,7 @@ Proof.
   rewrite (bind_eq _ _ s s s eq_refl). rewrite (in_some_function_false env s R), andb_false_r.
   rewrite (bind_eq _ _ s (map qarg_of bs) s eq_refl). rewrite (bind_eq _ _ s p s eq_refl).
   assert (p <? 10000 = true) as -> by (apply Z.ltb_lt; lia). cbn [guard]. rewrite (bind_eq _ _ s tt s eq_refl).
-  destruct (repeated_applications env name vs bs inv g (Z.to_nat p) s R Ha Hnum Hin Hd) as (s1 & E1 & D1 & S1).
+  destruct (repeated_applications env name args vs bs inv g (Z.to_nat p) s R Ha Hnum Hin Hd) as (s1 & E1 & D1 & S1).
   rewrite (bind_eq _ _ s (if check_only then [] else repeat g (Z.to_nat p)) s1 E1).
   exists s1. split; [unfold emit, ret; destruct check_only; reflexivity|]. split; assumption.
 Qed.
@@ -277,8 +276,8 @@ End Mods2.
 (* ---------- the statement: expansion and events ---------- *)
 Definition mod_ok (env : renv) (stm : stmt) : option (list stmt * list (list rsrc)) :=
   match stm with
-  | SGate (m :: ms) name args qs =>
-      match cmods (m :: ms) 1 false, mapM lit_bit qs, mapM lit_num args with
+  | SGate mods name args qs =>
+      match cmods mods 1 false, mapM lit_bit qs, cparams args with
       | Some (p, inv), Some bs, Some vs =>
           if (p <? 10000) && forallb (in_reg (e_q env)) bs && distinctb [] bs then
             match applied name vs bs inv with
@@ -294,21 +293,21 @@ Definition mod_ok (env : renv) (stm : stmt) : option (list stmt * list (list rsr
 Lemma mod_fix check_only f env s stm out evs : Regs env s -> mod_ok env stm = Some (out, evs) ->
   exists s1, visit_stmt check_only [] (S f) stm s = Ok ((if check_only then [] else out), s1) /\ DE s s1 /\ Dstep s s1 evs.
 Proof.
-  intros R H. destruct stm; try discriminate H. cbn [mod_ok] in H. destruct mods as [|m ms]; [discriminate H|].
-  destruct (cmods (m :: ms) 1 false) as [[p inv]|] eqn:Ec; [|discriminate H].
-  destruct (mapM lit_bit qubits) as [bs|] eqn:Eb; [|discriminate H]. destruct (mapM lit_num args) as [vs|] eqn:Ev; [|discriminate H].
+  intros R H. destruct stm; try discriminate H. cbn [mod_ok] in H.
+  destruct (cmods mods 1 false) as [[p inv]|] eqn:Ec; [|discriminate H].
+  destruct (mapM lit_bit qubits) as [bs|] eqn:Eb; [|discriminate H]. destruct (cparams args) as [vs|] eqn:Ev; [|discriminate H].
   match type of H with (if ?c then _ else _) = _ => destruct c eqn:C; [|discriminate H] end.
   destruct (applied name vs bs inv) as [g|] eqn:Ea; [|discriminate H]. destruct (op_ok env g); [|discriminate H]. injection H as <- <-.
   apply andb_true_iff in C as [C Hd]. apply andb_true_iff in C as [Hp Hin]. apply Z.ltb_lt in Hp.
-  apply mapM_lit_bit in Eb as ->. apply mapM_lit_num in Ev as [-> Hn].
+  apply mapM_lit_bit in Eb as ->.
   cbn [visit_stmt visit_stmt_body]. eapply modified_gate_fix; eauto.
 Qed.
 
 Lemma mod_ok_ops env stm out evs : mod_ok env stm = Some (out, evs) -> forallb (op_ok env) out = true.
 Proof.
-  intros H. destruct stm; try discriminate H. cbn [mod_ok] in H. destruct mods as [|m ms]; [discriminate H|].
-  destruct (cmods (m :: ms) 1 false) as [[p inv]|]; [|discriminate H].
-  destruct (mapM lit_bit qubits) as [bs|]; [|discriminate H]. destruct (mapM lit_num args) as [vs|]; [|discriminate H].
+  intros H. destruct stm; try discriminate H. cbn [mod_ok] in H.
+  destruct (cmods mods 1 false) as [[p inv]|]; [|discriminate H].
+  destruct (mapM lit_bit qubits) as [bs|]; [|discriminate H]. destruct (cparams args) as [vs|]; [|discriminate H].
   match type of H with (if ?c then _ else _) = _ => destruct c; [|discriminate H] end.
   destruct (applied name vs bs inv) as [g|]; [|discriminate H]. destruct (op_ok env g) eqn:Eo; [|discriminate H]. injection H as <- <-.
   apply forallb_forall. intros x Hx. apply repeat_spec in Hx. now subst.
